@@ -57,6 +57,16 @@ func (m *Manager) Release(name string) {
 	log.Debug().Str("name", name).Int("numCaches", len(m.sharedCaches)).Msg("Released cache")
 }
 
+// Removes the cache from the manager only if it is still the one registered
+// under the name, somebody else may have registered a new one in the meantime.
+func (m *Manager) unregister(name string, s *sharedCacheElem) {
+	m.mu.Lock()
+	if cur, ok := m.sharedCaches[name]; ok && cur == s {
+		delete(m.sharedCaches, name)
+	}
+	m.mu.Unlock()
+}
+
 // Checks if the total size of the cache is over the limit and if so, it will
 // scrap the least recently used cache.
 func (m *Manager) checkAndPrune() {
@@ -130,6 +140,19 @@ func (t *Transaction) With(name string, readOnly bool, createFn func() (Cachable
 		return fmt.Errorf("transaction has already failed")
 	}
 	// ---------------------------
+	/* A cache this transaction has write locked remains its cache for that name
+	 * until the commit, whether or not it is still registered: it may have been
+	 * pruned or released in the meantime and another transaction may have
+	 * registered a new one, which we must neither use without its lock nor
+	 * replace our own cache with. */
+	t.mu.Lock()
+	heldCache, held := t.writtenCaches[name]
+	held = held && !t.done
+	t.mu.Unlock()
+	if held {
+		return t.withHeld(name, heldCache, createFn, f)
+	}
+	// ---------------------------
 	/* The aim of the game is to find an appropiate value for cacheToUse variable
 	 * with common enemies including concurrent read-writes to maps and scrapped
 	 * caches. */
@@ -159,6 +182,8 @@ func (t *Transaction) With(name string, readOnly bool, createFn func() (Cachable
 			// read from it whilst one go routine is writing.
 			t.mu.Lock()
 			_, ok := t.writtenCaches[name]
+			// After the commit the write lock is gone, we read like anybody else
+			ok = ok && !t.done
 			t.mu.Unlock()
 			if !ok {
 				/* We are using TryRLock here because we can survive if we don't get
@@ -242,9 +267,7 @@ func (t *Transaction) With(name string, readOnly bool, createFn func() (Cachable
 			 * manager. */
 			t.failed.Store(true)
 			cacheToUse.scrapped = true
-			t.manager.mu.Lock()
-			delete(t.manager.sharedCaches, name)
-			t.manager.mu.Unlock()
+			t.manager.unregister(name, cacheToUse)
 			return fmt.Errorf("error while executing cache operation: %w", err)
 		}
 		return nil
@@ -300,10 +323,34 @@ func (t *Transaction) With(name string, readOnly bool, createFn func() (Cachable
 	if err := f(s.item); err != nil {
 		t.failed.Store(true)
 		s.scrapped = true
-		t.manager.mu.Lock()
-		delete(t.manager.sharedCaches, name)
-		t.manager.mu.Unlock()
+		t.manager.unregister(name, s)
 		return fmt.Errorf("error while executing on new cache operation: %w", err)
+	}
+	return nil
+}
+
+// Runs f on a cache the transaction already holds the write lock of.
+func (t *Transaction) withHeld(name string, heldCache *sharedCacheElem, createFn func() (Cachable, error), f func(cacheToUse Cachable) error) error {
+	cacheToUse := heldCache
+	if heldCache.scrapped {
+		log.Debug().Str("name", name).Msg("Held cache is scrapped, using temporary new cache")
+		freshCachable, err := createFn()
+		if err != nil {
+			t.failed.Store(true)
+			return fmt.Errorf("error while creating fresh cold temporary cache: %w", err)
+		}
+		cacheToUse = &sharedCacheElem{
+			item:         freshCachable,
+			lastAccessed: time.Now(),
+		}
+	} else {
+		defer t.manager.checkAndPrune()
+	}
+	if err := f(cacheToUse.item); err != nil {
+		t.failed.Store(true)
+		cacheToUse.scrapped = true
+		t.manager.unregister(name, cacheToUse)
+		return fmt.Errorf("error while executing cache operation: %w", err)
 	}
 	return nil
 }
@@ -324,9 +371,22 @@ func (t *Transaction) Commit(fail bool) {
 	defer t.manager.mu.Unlock()
 	failed := t.failed.Load() || fail
 	for name, s := range writtenCaches {
+		cur, registered := t.manager.sharedCaches[name]
 		if failed {
 			s.scrapped = true
-			delete(t.manager.sharedCaches, name)
+			if registered && cur == s {
+				delete(t.manager.sharedCaches, name)
+			}
+		} else if !registered || cur != s {
+			/* Our cache was pruned or released while we held it, whoever waits
+			 * for its lock starts cold. If somebody has registered a new one in
+			 * the meantime, it was built from the data before this commit and
+			 * would stay stale. */
+			s.scrapped = true
+			if registered {
+				cur.scrapped = true
+				delete(t.manager.sharedCaches, name)
+			}
 		}
 		log.Debug().Str("name", name).Bool("failed", failed).Msg("Committing cache")
 		// Recall that we should be holding all the write locks to these caches within the transaction
